@@ -5,6 +5,12 @@ package main
 //   P n v... # n v... # <0|1>                                  encodeKey(a) == encodeKey(b) on the real code
 //   J <config> # <registrations> # <ops with observed results> public API: Execute / RegisterTable / UpsertTable /
 //                                                              Delete / Emit / EmitSync
+//     ops besides E / Y (Emit / EmitSync: row, result), U (UpsertTable: table, row, ok), D (Delete: table, key):
+//       G <R|S> <table> <A | nkeys keys...> <nrows> rows... <ok>   the table is registered AGAIN (or, for a table left
+//                                              unregistered, for the first time) between rows: R = RegisterTable,
+//                                              S = RegisterTableSource(NewMemoryTableSource(...)); other rows, possibly
+//                                              other key fields; replaces the source of that name
+//       Z U <table> <row> | Z D <table> <key>  Upsert / Delete through the handle of a source that has been replaced
 //   K <config> # <registrations> # <goroutine 1: ops with observed results> # ... # <probes after all returned>
 //                                                              several goroutines writing key-disjoint parts of one table
 //   C <versions> <with deletes 0|1> # <observed versions> # <final>   one writer, one reader, concurrently
@@ -673,10 +679,34 @@ func c16History(rng *RNG, idx int) (string, []string, error) {
 
 	pool := c16KeyPool(rng)
 	vctr := 0
+	// re-registration family: in every second history tables are registered again between rows
+	rereg := rng.Bool()
+	curKeys := map[string][]string{} // the key fields the table of that name is indexed by right now
+	for _, j := range joins {
+		curKeys[j.table] = j.tfields
+	}
+	recent := map[string][]map[string]any{} // rows written to a table lately (registrations, upserts): probe targets
+	remember := func(table string, r map[string]any) {
+		l := append(recent[table], r)
+		if len(l) > 6 {
+			l = l[len(l)-6:]
+		}
+		recent[table] = l
+	}
 	mkTableRow := func(j c16Join) map[string]any {
 		vctr++
 		r := map[string]any{"v": vctr}
-		for _, f := range j.tfields {
+		cols := append([]string{}, j.tfields...)
+		for _, f := range curKeys[j.table] { // after a registration with other key fields: those columns too
+			dup := false
+			for _, g := range cols {
+				dup = dup || g == f
+			}
+			if !dup {
+				cols = append(cols, f)
+			}
+		}
+		for _, f := range cols {
 			if rng.Intn(15) != 0 { // else: key column missing in the table row (reads as NULL)
 				r[f] = pool[rng.Intn(len(pool))]
 			}
@@ -740,6 +770,7 @@ func c16History(rng *RNG, idx int) (string, []string, error) {
 		regTok = append(regTok, strconv.Itoa(len(rows)))
 		for _, r := range rows {
 			regTok = append(regTok, c16Row(r))
+			remember(j.table, r)
 		}
 	}
 	// operations
@@ -752,6 +783,17 @@ func c16History(rng *RNG, idx int) (string, []string, error) {
 		for _, f := range sf {
 			if rng.Intn(12) != 0 {
 				r[f] = pool[rng.Intn(len(pool))]
+			}
+		}
+		if rereg && rng.Intn(3) == 0 { // aim at a row written lately (before or after a re-registration)
+			j := joins[rng.Intn(nj)]
+			if l := recent[j.table]; len(l) > 0 {
+				tr := l[rng.Intn(len(l))]
+				for p, f := range j.sfields {
+					if v, ok := tr[j.tfields[p]]; ok {
+						r[f] = v
+					}
+				}
 			}
 		}
 		if rng.Intn(4) == 0 {
@@ -826,23 +868,173 @@ func c16History(rng *RNG, idx int) (string, []string, error) {
 		}
 		return ok
 	}
+	oldSrcs := map[string][]*stream.MemoryTableSource{} // handles of replaced sources
+	processed, reregs := 0, 0                           // rows processed so far, registrations made during the history
+	// the table of join j is registered again (first time for a table left unregistered): other rows, now and
+	// then other key fields, through RegisterTable or RegisterTableSource. Everything processed / upserted
+	// afterwards must see the new source only.
+	reregister := func(j c16Join) bool {
+		keys := j.tfields
+		other := rng.Intn(4) == 0
+		if other {
+			switch {
+			case len(j.tfields) == 1:
+				keys = []string{"b"} // same arity: the barrier row still matches
+				if !useEmit && rng.Bool() {
+					keys = []string{"a", "b"}
+				}
+			case useEmit || rng.Bool():
+				keys = []string{"b", "a"}
+			default:
+				keys = []string{"a"}
+			}
+		}
+		prev := curKeys[j.table]
+		curKeys[j.table] = keys
+		var rows []map[string]any
+		for n := rng.Intn(4); n > 0; n-- {
+			rows = append(rows, mkTableRow(j))
+		}
+		if l := recent[j.table]; len(l) > 0 && rng.Bool() { // a key of the old contents with a new row
+			vctr++
+			nr := map[string]any{"v": vctr}
+			for k, v := range l[rng.Intn(len(l))] {
+				if k != "v" && k != "tag" {
+					nr[k] = v
+				}
+			}
+			rows = append(rows, nr)
+		}
+		if useEmit {
+			vctr++
+			rows = append(rows, map[string]any{"v": vctr, "tag": "barrier", "a": c16Barrier, "b": c16Barrier})
+		}
+		via := "R"
+		explicit := other || rng.Intn(3) == 0
+		var src *stream.MemoryTableSource
+		var err error
+		switch {
+		case rng.Intn(3) == 0:
+			via, explicit = "S", true
+			src = stream.NewMemoryTableSource(j.table, keys, rows)
+			err = s.RegisterTableSource(src)
+			tags = append(tags, "reregister_via_RegisterTableSource")
+		case explicit:
+			src, err = s.RegisterTable(j.table, rows, keys...)
+			tags = append(tags, "reregister_via_RegisterTable")
+		default:
+			src, err = s.RegisterTable(j.table, rows)
+			tags = append(tags, "reregister_via_RegisterTable")
+		}
+		opTok = append(opTok, "G", via, j.table)
+		if explicit {
+			opTok = append(opTok, strconv.Itoa(len(keys)))
+			opTok = append(opTok, keys...)
+		} else {
+			opTok = append(opTok, "A")
+		}
+		opTok = append(opTok, strconv.Itoa(len(rows)))
+		for _, r := range rows {
+			opTok = append(opTok, c16Row(r))
+		}
+		opTok = append(opTok, b01(err == nil))
+		if err != nil {
+			curKeys[j.table] = prev
+			return false
+		}
+		if old := srcs[j.table]; old != nil {
+			oldSrcs[j.table] = append(oldSrcs[j.table], old)
+			tags = append(tags, "op_reregister")
+			if processed > 0 {
+				tags = append(tags, "reregister_after_rows_processed")
+			}
+		} else {
+			tags = append(tags, "late_first_registration")
+		}
+		if other {
+			tags = append(tags, "reregister_other_key_fields")
+		}
+		srcs[j.table] = src
+		for _, r := range rows {
+			remember(j.table, r)
+		}
+		reregs++
+		return true
+	}
 ops:
 	for n := 0; n < nops; n++ {
 		j := joins[rng.Intn(nj)]
-		switch r := rng.Intn(100); {
+		r := rng.Intn(100)
+		if rereg {
+			switch g := rng.Intn(100); {
+			case g < 14 || (n == nops/2 && reregs == 0):
+				reregister(j)
+				continue
+			case g < 22 && len(oldSrcs[j.table]) > 0:
+				// a write through the handle of a replaced source: the store no longer holds it
+				old := oldSrcs[j.table][rng.Intn(len(oldSrcs[j.table]))]
+				if rng.Bool() {
+					row := mkTableRow(j)
+					if l := recent[j.table]; len(l) > 0 && rng.Bool() {
+						for _, f := range old.KeyFields() {
+							if v, ok := l[rng.Intn(len(l))][f]; ok {
+								row[f] = v
+							}
+						}
+					}
+					old.Upsert(row)
+					opTok = append(opTok, "Z", "U", j.table, c16Row(row))
+				} else {
+					key := make([]any, len(old.KeyFields()))
+					for i, f := range old.KeyFields() {
+						key[i] = pool[rng.Intn(len(pool))]
+						if l := recent[j.table]; len(l) > 0 && rng.Bool() {
+							if v, ok := l[rng.Intn(len(l))][f]; ok {
+								key[i] = v
+							}
+						}
+					}
+					old.Delete(key)
+					opTok = append(opTok, "Z", "D", j.table, "T", c16Tuple(key))
+				}
+				tags = append(tags, "op_detached_write")
+				continue
+			}
+		}
+		switch {
 		case r < 35:
 			row := mkTableRow(j)
+			if l := recent[j.table]; rereg && len(l) > 0 && rng.Intn(3) == 0 { // replace a row written lately
+				for _, f := range curKeys[j.table] {
+					if v, ok := l[rng.Intn(len(l))][f]; ok {
+						row[f] = v
+					}
+				}
+			}
 			err := s.UpsertTable(j.table, row)
 			opTok = append(opTok, "U", j.table, c16Row(row), b01(err == nil))
 			tags = append(tags, "op_upsert")
+			if err == nil {
+				remember(j.table, row)
+				if reregs > 0 {
+					tags = append(tags, "upsert_after_reregistration")
+				}
+			}
 		case r < 50:
 			src := srcs[j.table]
 			if src == nil {
 				continue
 			}
-			key := make([]any, len(j.tfields))
+			key := make([]any, len(curKeys[j.table]))
 			for i := range key {
 				key[i] = pool[rng.Intn(len(pool))]
+			}
+			if l := recent[j.table]; rereg && len(l) > 0 && rng.Intn(3) == 0 { // delete a row written lately
+				for i, f := range curKeys[j.table] {
+					if v, ok := l[rng.Intn(len(l))][f]; ok {
+						key[i] = v
+					}
+				}
 			}
 			if len(key) == 1 && rng.Bool() {
 				src.Delete(key[0])
@@ -868,6 +1060,10 @@ ops:
 				rowTok := []string{"E", c16Row(row), resTok(m, nil)}
 				opTok = append(opTok[:pos], append(rowTok, opTok[pos:]...)...)
 				tags = append(tags, "op_emit")
+				processed++
+				if reregs > 0 {
+					tags = append(tags, "row_after_reregistration")
+				}
 			}
 			if !delivered {
 				break ops
@@ -877,6 +1073,10 @@ ops:
 			m, err := s.EmitSync(row)
 			opTok = append(opTok, "Y", c16Row(row), resTok(m, err))
 			tags = append(tags, "op_emitsync")
+			processed++
+			if reregs > 0 {
+				tags = append(tags, "row_after_reregistration")
+			}
 		}
 	}
 	line := fmt.Sprintf("C16 J %s # %s # %s", cfg.cfgTok, strings.Join(regTok, " "), strings.Join(opTok, " "))
